@@ -37,8 +37,9 @@ PROBES = ["read_after_registration", "read_after_restart", "user_codec_wrote", "
 
 VALS = [["str", ""], ["str", "ascii"], ["str", "é∑漢"], ["str", "line1\r\nline2\rline3\n"], ["str", "\ufeffbom\x00nul\x1a"], ["bigstr", "aé", 1 << 20], ["bytes", ""], ["bytes", "00ff10"],
         ["bytearray", "0102"], ["none"], ["obj", 1], ["obj", 2, "é"], ["list", [["int", 1], ["str", "a"]]],
-        ["dict", [["a", ["int", 1]]]], ["tuple", [["int", 1], ["none"]]], ["frame", 3], ["frame", 0], ["int", 5]]
-REGS = ["tagstr", "objjson", "objpickle2", "bytes2", "builtin_string", "builtin_pickle"]
+        ["dict", [["a", ["int", 1]]]], ["tuple", [["int", 1], ["none"]]], ["frame", 3], ["frame", 0], ["int", 5],
+        ["obj2inner", 4], ["obj2pkg", 4], ["obj2inner", 5]]
+REGS = ["tagstr", "objjson", "objpickle2", "bytes2", "builtin_string", "builtin_pickle", "pkgobj2", "pkgobj2"]
 
 
 def gen_case(streams, tier, avoid):
